@@ -8,4 +8,5 @@ CONSTANTS
   DEV_CopyMisMaps = FALSE
   DEV_PickleNoRebuild = FALSE
   DEV_AddRebuildsFirst = FALSE
+  DEV_DiscHalfRadius = FALSE
 INVARIANT Emit
